@@ -18,7 +18,7 @@ RULE = ("(A) retry model on virtual time: for every retry budget r in 1..4, ever
         "{never, 0.3, 1.75, 2.25, 4.25, 6.25} s and both protocol versions, the simulated device counts the transmissions of the request; "
         "reference: transmissions at 0,2,4,.. until the first response arrival A, count = min(r, floor(A/2)+1), success iff A < 2r, return "
         "instant = A (or 2r for the timeout); no transmission after A. (B) faults: every single fault and every ordered pair of consecutive "
-        "faulted exchanges from {drop, wedged connection, error packet, garbage, error/garbage/cancel followed by a wedged connection, peer FIN, peer RST, refused connect, hanging connect, "
+        "faulted exchanges from {drop, wedged connection, error packet, garbage, error/garbage/cancel followed by a wedged connection, peer FIN, peer RST, refused connect, hanging connect, connect failing with host/network unreachable, name resolution failure, several addresses all refused, OS-level connect timeout, "
         "accept-then-close, cancellation} in the phases where they apply (connect, handshake, data), with max_connection_lifetime in {None, 90 s, 1 h}, after an initial successful exchange; the "
         "following exchange against a promptly answering device must succeed with no user intervention; the same at device level: refresh() "
         "never raises, reports online=False for the failed exchange and online=True afterwards. (C) cancellation instants swept over the "
@@ -40,7 +40,9 @@ TOKEN = bytes(range(3, 67))
 KEY = bytes(range(90, 122))
 
 # (phase, fault)
+CONNECT_ERRORS = ("refuse", "hang", "unreachable", "netunreach", "gaierror", "multi-refused", "etimedout")
 FAULTS_V3 = [("connect", "refuse"), ("connect", "hang"), ("connect", "accept-rst"), ("connect", "accept-fin"),
+             ("connect", "unreachable"), ("connect", "netunreach"), ("connect", "gaierror"), ("connect", "multi-refused"), ("connect", "etimedout"),
              ("handshake", "drop"), ("handshake", "error"), ("handshake", "garbage"), ("handshake", "fin"), ("handshake", "rst"),
              ("handshake", "cancel"), ("handshake", "slow-cancel"),
              ("data", "drop"), ("data", "wedge"), ("data", "error"), ("data", "garbage"), ("data", "fin"), ("data", "rst"), ("data", "cancel"),
@@ -123,9 +125,10 @@ def _retry(ctx, case):
     grid = case.get("grid", DELAYS)
     net = H.new_net()
     dev = _mkdev(net, version)
-    st = {"delays": None, "frame": None, "n": 0, "times": []}
+    st = {"delays": None, "frame": None, "n": 0, "times": [], "all": 0}
 
     def on_exchange(conn, req, packets, meta):
+        st["all"] += 1
         if st["delays"] is None or req != st["frame"]:
             return None
         i = st["n"]
@@ -166,9 +169,12 @@ def _retry(ctx, case):
             # let stragglers arrive, then verify recovery with a prompt device
             await asyncio.sleep(9.13)
             late_tx = st["n"] - n_tx
+            all0 = st["all"]
             try:
                 rec = await lan.send(acframe.state_query(0))
                 recovered = len(rec) > 0
+                if st["all"] == all0:
+                    recovered = "request-never-transmitted"
             except (KeyboardInterrupt, SystemExit):
                 raise
             except BaseException as e:  # noqa: BLE001
@@ -209,7 +215,11 @@ def _retry(ctx, case):
         if late_tx:
             ctx.violation("retransmit-after-response", f"{late_tx} transmissions of the request after the exchange had ended", one)
             bad = True
-        if recovered is not True:
+        if recovered == "request-never-transmitted":
+            ctx.violation("request-never-transmitted", f"the exchange following delays {delays} (retries {r}) returned frames although its request "
+                          "was never transmitted (a late reply was waiting in the receive queue)", one)
+            bad = True
+        elif recovered is not True:
             ctx.violation("no-recovery-after-retry-exchange", f"exchange after delays {delays} (retries {r}) failed: {recovered}", one)
             bad = True
         ctx.count(key, kind="retry-model-bad" if bad else "retry-model-ok",
@@ -221,7 +231,7 @@ def _arm(dev, st, phase, fault):
     """Configure the simulated device so that the next exchange meets (phase, fault)."""
     st.update(phase=phase, fault=fault, armed=True, cancel=False)
     if phase == "connect":
-        if fault in ("refuse", "hang"):
+        if fault in CONNECT_ERRORS:
             dev.connect_script = [fault]
     if fault in ("cancel", "cancel-wedge", "slow-cancel"):
         st["cancel"] = True
